@@ -48,6 +48,7 @@ pub struct CoreOpts {
     pub allow_private: bool,
     pub establishment_timeout: Duration,
     pub tcp_timeout: Duration,
+    pub listener_timeout: Option<Duration>,
 }
 
 impl Default for CoreOpts {
@@ -58,6 +59,7 @@ impl Default for CoreOpts {
             allow_private: false,
             establishment_timeout: Duration::from_secs(2),
             tcp_timeout: Duration::from_secs(600),
+            listener_timeout: None,
         }
     }
 }
@@ -76,9 +78,13 @@ pub fn hosts_settings() -> TlsHostsSettings {
 }
 
 pub fn make_core(o: &CoreOpts) -> Core {
-    let settings = Settings::builder()
+    let mut b = Settings::builder()
         .listen_address("127.0.0.1:0")
-        .unwrap()
+        .unwrap();
+    if let Some(t) = o.listener_timeout {
+        b = b.client_listener_timeout(t);
+    }
+    let settings = b
         .listen_protocols(ListenProtocolSettings {
             http1: Some(Http1Settings::builder().build()),
             http2: Some(Http2Settings::builder().build()),
@@ -169,6 +175,7 @@ struct PeerState {
     rx: Vec<u8>,
     responded: bool,
     idx: usize,
+    closed: bool,
 }
 
 struct PeerSrc {
@@ -187,6 +194,9 @@ impl VSource for PeerSrc {
         loop {
             {
                 let mut g = self.st.lock().unwrap();
+                if g.closed {
+                    return Ok(VData::Eof);
+                }
                 if !g.responded && g.rx.windows(4).any(|w| w == b"\r\n\r\n") && !self.response.is_empty() {
                     g.responded = true;
                     return Ok(VData::Chunk(Bytes::from(self.response.clone())));
@@ -213,6 +223,8 @@ impl VSink for PeerSnk {
     }
 
     fn eof(&mut self) -> io::Result<()> {
+        // the scripted destination closes its side once the client's end of stream reached it
+        self.st.lock().unwrap().closed = true;
         Ok(())
     }
 
@@ -250,7 +262,7 @@ impl VForwarder for ScriptedForwarder {
             .unwrap_or_else(|| self.default_tcp.clone());
         match plan {
             TcpPlan::Ok => {
-                let st = Arc::new(Mutex::new(PeerState { rx: vec![], responded: false, idx }));
+                let st = Arc::new(Mutex::new(PeerState { rx: vec![], responded: false, idx, closed: false }));
                 VConnect::Ok(
                     Box::new(PeerSrc { st: st.clone(), response: self.origin_response.clone() }),
                     Box::new(PeerSnk { st, calls: self.calls.clone() }),
